@@ -197,7 +197,7 @@ def main(tier):
     budget = 60 if tier == 'quick' else 900
     fps = [('fp', 'emitting', 64, 120), ('fp', 'nonemitting', 16, 300)]
     if tier == 'thorough':
-        fps.append(('fp', 'nonemitting', 32, 3000))
+        fps.append(('fp', 'nonemitting', 32, 1200))   # inconclusive when it does not finish (stated)
     fres = run_instances(run_instance, fps + [('upsert', c, l) for c in ('BaseMatching', 'DistanceMatching') for l in (0, 1)])
     res = gabs.run_all(rep, run_instance, instances(tier), budget, 16 * (100 if tier == 'quick' else 900))
     rep.bounds = dict(operations="sequences of <=3 operations from match / increase_max_lattice_width / match(expand=True) / continue_with_distance / repeated match",
